@@ -31,6 +31,11 @@ CONSTANTS Period,               \* staking period (withdrawals take effect at it
           MaxBlocks, MaxTx, MaxEv,
           Frac,                 \* PenaltyFractionForDoubleSign (percent)
           ZeroPenaltyUnlisted,
+          MaxFlips,             \* fork switches of the importing node per history
+          ReorgRewritesLookups, \* TRUE as coded: reorg() rewrites the tx lookup entries of every re-adopted block
+          ExecBeforeSwitchBack, \* TRUE as coded: the block that makes a node switch back is executed while the lookup entries of
+                                \* the blocks to re-adopt are still deleted; FALSE (repaired) = pending transactions are found
+                                \* through the block's own ancestry
           GenMode
 
 Accused == {"g2", "g3"}                     \* validators an evidence can name (g1 proposes)
@@ -44,8 +49,10 @@ VARIABLES sa, sb,     \* abstract state of the builder's chain A and of the impo
           phase,      \* "offer" | "built" | "done"
           hdr,        \* header of the block just built
           ok,         \* the importer accepted every block so far
+          look,       \* importing node: numbers of the canonical blocks whose transactions have lookup entries
+          flips,      \* fork switches so far
           hist
-vars == <<sa, sb, n, evs, prog, phase, hdr, ok, hist>>
+vars == <<sa, sb, n, evs, prog, phase, hdr, ok, look, flips, hist>>
 
 InitS == [tok |-> [v \in Accused |-> Tok0(v)], on |-> [v \in Accused |-> TRUE], expl |-> [v \in Accused |-> FALSE],
           pen |-> 0, fees |-> 0, pend |-> <<>>]
@@ -59,11 +66,12 @@ Offers == { Tx("transfer", "u1", "u2", "g1", 5), Tx("badnonce", "u1", "u2", "g1"
 RefusedTx(t) == t.k = "badnonce"
 
 \* ---------------------------------------------------------------- the shared transition function
-ApplyTx(s, t) == CASE t.k \in {"transfer", "widegas"} -> [s EXCEPT !.fees = @ + 1]
-                   [] t.k = "withdraw" -> [s EXCEPT !.fees = @ + 1, !.pend = Append(@, t)]
-                   [] OTHER -> s
-RECURSIVE ApplyTxs(_, _)
-ApplyTxs(s, q) == IF q = <<>> THEN s ELSE ApplyTxs(ApplyTx(s, Head(q)), Tail(q))
+\* a pending staking transaction is remembered by its hash only (staking record); num = the block that contains it
+ApplyTx(s, t, num) == CASE t.k \in {"transfer", "widegas"} -> [s EXCEPT !.fees = @ + 1]
+                        [] t.k = "withdraw" -> [s EXCEPT !.fees = @ + 1, !.pend = Append(@, [blk |-> num] @@ t)]
+                        [] OTHER -> s
+RECURSIVE ApplyTxs(_, _, _)
+ApplyTxs(s, q, num) == IF q = <<>> THEN s ELSE ApplyTxs(ApplyTx(s, Head(q), num), Tail(q), num)
 
 \* processEvidences over a list, for parent height ph: result [s, confirmed, pending, seen]
 RECURSIVE Slash(_, _, _, _, _, _)
@@ -78,15 +86,21 @@ Slash(s, q, ph, conf, pendq, seen) ==
                  listed == p > 0 \/ ~ZeroPenaltyUnlisted IN
              Slash(s1, Tail(q), ph, IF listed THEN Append(conf, e) ELSE conf, pendq, seen \cup {e.v})
 
-RECURSIVE TakeEffect(_, _)
-TakeEffect(s, q) == IF q = <<>> THEN [s EXCEPT !.pend = <<>>]
-                    ELSE LET t == Head(q) IN TakeEffect([s EXCEPT !.tok[t.v] = @ - Min(t.x, @)], Tail(q))
-EndOfBlock(s, num) == IF (num + 1) % Period = 0 THEN TakeEffect(s, s.pend) ELSE s
+\* processPendingTxs reads every pending transaction back through its lookup entry (rawdb.ReadTransaction) or finds it in
+\* the block being executed; lk = the blocks whose lookup entries the executing node has.  A transaction that cannot be
+\* found aborts the whole phase ("tx not exist").
+RECURSIVE TakeEffect(_, _, _, _)
+TakeEffect(s, q, lk, num) ==
+   IF q = <<>> THEN [s EXCEPT !.pend = <<>>]
+   ELSE LET t == Head(q) IN
+        IF t.blk # num /\ t.blk \notin lk THEN [s EXCEPT !.pend = <<>>]
+        ELSE TakeEffect([s EXCEPT !.tok[t.v] = @ - Min(t.x, @)], Tail(q), lk, num)
+EndOfBlock(s, num, lk) == IF (num + 1) % Period = 0 THEN TakeEffect(s, s.pend, lk, num) ELSE s
 
 \* ---------------------------------------------------------------- offering, building, importing
 OfferTx == /\ phase = "offer" /\ Len(prog.txs) < MaxTx
            /\ \E t \in Offers : prog' = [prog EXCEPT !.txs = Append(@, t)]
-           /\ UNCHANGED <<sa, sb, n, evs, phase, hdr, ok, hist>>
+           /\ UNCHANGED <<sa, sb, n, evs, phase, hdr, ok, look, flips, hist>>
 
 \* an evidence reaches the proposer: about the parent round (d = 0) or about the round being built (d = 1, processed by
 \* the NEXT block)
@@ -94,36 +108,49 @@ OfferEv == /\ phase = "offer" /\ Len(prog.ev) < MaxEv
            /\ \E v \in Accused, d \in {0, 1} :
                 /\ prog' = [prog EXCEPT !.ev = Append(@, [v |-> v, d |-> d])]
                 /\ evs' = Append(evs, [v |-> v, round |-> n - 1 + d])
-           /\ UNCHANGED <<sa, sb, n, phase, hdr, ok, hist>>
+           /\ UNCHANGED <<sa, sb, n, phase, hdr, ok, look, flips, hist>>
 
 Build ==
    /\ phase = "offer"
    /\ LET incl == SelectSeq(prog.txs, LAMBDA t : ~RefusedTx(t))       \* refused ones are reverted and skipped
-          s1   == ApplyTxs(sa, incl)
+          s1   == ApplyTxs(sa, incl, n)
           r    == Slash(s1, evs, n - 1, <<>>, <<>>, {})                \* slashing(): the LOCAL list, parent height
-          s2   == EndOfBlock(r.s, n) IN
+          s2   == EndOfBlock(r.s, n, 1..n) IN                          \* the builder never left its chain
       /\ sa' = s2
       /\ evs' = r.pend
       /\ hdr' = [n |-> n, txs |-> incl, slash |-> r.conf, digest |-> s2]
    /\ phase' = "built"
-   /\ UNCHANGED <<sb, n, prog, ok, hist>>
+   /\ UNCHANGED <<sb, n, prog, ok, look, flips, hist>>
+
+\* The importing node is shown a sibling block that replaces its last `back` blocks (reorg away: the lookup entries of the
+\* replaced blocks are deleted); importing the builder's block afterwards makes it switch back: reorg() makes the
+\* replaced blocks canonical again and -- as coded -- rewrites their lookup entries; the new head's entries come from
+\* WriteBlockWithState.  The block is executed BEFORE the switch back, i.e. without the entries of the replaced blocks.
+Flip ==
+   /\ phase = "built" /\ flips < MaxFlips /\ prog.rg = 0
+   /\ \E back \in 1..2 : n - 1 - back >= 0 /\ prog' = [prog EXCEPT !.rg = back]
+   /\ flips' = flips + 1
+   /\ UNCHANGED <<sa, sb, n, evs, phase, hdr, ok, look, hist>>
 
 Import ==
    /\ phase = "built"
-   /\ LET s1 == ApplyTxs(sb, hdr.txs)
+   /\ LET gone == IF prog.rg > 0 THEN (n - prog.rg)..(n - 1) ELSE {}
+          s1 == ApplyTxs(sb, hdr.txs, n)
           r  == Slash(s1, hdr.slash, n - 1, <<>>, <<>>, {})            \* replaySlashing(): header.SlashData, parent height
-          s2 == EndOfBlock(r.s, n) IN
+          s2 == EndOfBlock(r.s, n, IF ExecBeforeSwitchBack THEN look \ gone ELSE look) IN
       /\ sb' = s2
       /\ ok' = (ok /\ s2 = hdr.digest)                                 \* ValidateState
-   /\ hist' = Append(hist, [cb |-> "g1", txs |-> prog.txs, ev |-> prog.ev])
-   /\ prog' = [txs |-> <<>>, ev |-> <<>>]
+      /\ look' = ((look \ gone) \cup (IF ReorgRewritesLookups THEN gone ELSE {})) \cup {n}
+   /\ hist' = Append(hist, [cb |-> "g1", txs |-> prog.txs, ev |-> prog.ev, rg |-> prog.rg])
+   /\ prog' = [txs |-> <<>>, ev |-> <<>>, rg |-> 0]
+   /\ UNCHANGED flips
    /\ n' = n + 1
    /\ phase' = IF n = MaxBlocks THEN "done" ELSE "offer"
    /\ UNCHANGED <<sa, evs, hdr>>
 
-Init == /\ sa = InitS /\ sb = InitS /\ n = 1 /\ evs = <<>> /\ prog = [txs |-> <<>>, ev |-> <<>>] /\ phase = "offer"
-        /\ hdr = [n |-> 0, txs |-> <<>>, slash |-> <<>>, digest |-> InitS] /\ ok = TRUE /\ hist = <<>>
-Next == OfferTx \/ OfferEv \/ Build \/ Import
+Init == /\ sa = InitS /\ sb = InitS /\ n = 1 /\ evs = <<>> /\ prog = [txs |-> <<>>, ev |-> <<>>, rg |-> 0] /\ phase = "offer"
+        /\ hdr = [n |-> 0, txs |-> <<>>, slash |-> <<>>, digest |-> InitS] /\ ok = TRUE /\ look = {} /\ flips = 0 /\ hist = <<>>
+Next == OfferTx \/ OfferEv \/ Build \/ Flip \/ Import
 Spec == Init /\ [][Next]_vars
 
 \* ---------------------------------------------------------------- property layer
@@ -134,5 +161,5 @@ BuilderAccepted == ok \/ Cex("BuilderAccepted")
 SameState == (phase \in {"offer", "done"} /\ ok) => sa = sb
 
 Leaf == (GenMode = "leaf" /\ phase = "done") => PrintT("@@J " \o ToJson([kind |-> "B", h |-> hist]))
-View == <<sa, sb, n, evs, prog, phase, hdr, ok>>
+View == <<sa, sb, n, evs, prog, phase, hdr, ok, look, flips>>
 =============================================================================
